@@ -43,7 +43,7 @@ def check(prop, tier, seed):
     obs, cmds, vac, trusted = [], [], {}, []
     if "K" in cfg["engines"]:
         k = cfg.get("k", {})
-        o, c, v, log = kengine.run_property(prop, tier, jobs=k.get("jobs", 12), harness_timeout=int(os.environ.get("VERIF_KTIMEOUT", k.get("timeout", 600))))
+        o, c, v, log = kengine.run_property(prop, tier, jobs=int(os.environ.get("VERIF_KJOBS", k.get("jobs", 12))), harness_timeout=int(os.environ.get("VERIF_KTIMEOUT", k.get("timeout", 600))))
         obs += o; cmds += c; vac["kani"] = v; trusted += kengine.TRUSTED
         os.makedirs(os.path.join(BUILD, "logs"), exist_ok=True)
         open(os.path.join(BUILD, "logs", "%s-kani.log" % prop), "w").write(log)
